@@ -2,4 +2,12 @@
 EXTENDS Avc
 McHeaders == {<<66, 0, 30>>, <<255, 192, 255>>}
 McPatterns == {<<1>>, <<2>>, <<3, 1>>}
+McPosHeaders == {<<77, 64, 41>>}
+\* start codes at the start / in the middle / at the end of the payload, behind a zero and a non-zero header byte
+McMimics == {[sc |-> 0, w |-> "s", nri |-> 0, t |-> 0]}
+            \cup {[sc |-> sc, w |-> w, nri |-> h[1], t |-> h[2]] : sc \in {3, 4}, w \in {"s", "m", "e"}, h \in {<<0, 0>>, <<3, 5>>}}
+\* the three header bytes are independent: classes of each, crossed
+McMatrix == {<<p, c, l>> : p \in {0, 66, 77, 100, 110, 122, 144, 255}, c \in {0, 16, 64, 192, 255}, l \in {0, 11, 255}}
+\* the small configuration of the non-vacuity runs (named deviations)
+McMatrixSmall == {<<66, 0, 11>>, <<66, 64, 11>>, <<110, 16, 30>>, <<77, 16, 11>>}
 =============================================================================
